@@ -63,6 +63,7 @@ func (s step32) key() string {
 type case32 struct {
 	N     int             `json:"n"`
 	K     int             `json:"k"`
+	Conf  *ConfIn         `json:"conf"`
 	Tree  json.RawMessage `json:"tree"`
 	Init  []xpage         `json:"init"`
 	Steps []step32        `json:"steps"`
@@ -237,54 +238,54 @@ func (r *runner32) put(k string, e *entry32) {
 	}
 }
 
-func applyOp(s step32, in, out string) error {
+func applyOp(s step32, in, out string, cf *ConfIn) error {
 	sel := s.Sel
 	if len(sel) == 0 {
 		sel = nil
 	}
 	switch s.Op {
 	case "insert_before":
-		return api.InsertPagesFile(in, out, sel, true, nil, nil)
+		return api.InsertPagesFile(in, out, sel, true, nil, cf.conf())
 	case "insert_after":
-		return api.InsertPagesFile(in, out, sel, false, nil, nil)
+		return api.InsertPagesFile(in, out, sel, false, nil, cf.conf())
 	case "remove":
-		return api.RemovePagesFile(in, out, sel, nil)
+		return api.RemovePagesFile(in, out, sel, cf.conf())
 	case "trim":
-		return api.TrimFile(in, out, sel, nil)
+		return api.TrimFile(in, out, sel, cf.conf())
 	case "collect":
-		return api.CollectFile(in, out, sel, nil)
+		return api.CollectFile(in, out, sel, cf.conf())
 	case "rotate":
-		return api.RotateFile(in, out, s.N, sel, nil)
+		return api.RotateFile(in, out, s.N, sel, cf.conf())
 	case "addboxes":
 		pb, err := api.PageBoundaries(s.Txt, types.POINTS)
 		if err != nil {
 			h.Die("box definition %q rejected: %v", s.Txt, err)
 		}
-		return api.AddBoxesFile(in, out, sel, pb, nil)
+		return api.AddBoxesFile(in, out, sel, pb, cf.conf())
 	case "removeboxes":
 		pb, err := api.PageBoundariesFromBoxList(s.Txt)
 		if err != nil {
 			h.Die("box list %q rejected: %v", s.Txt, err)
 		}
-		return api.RemoveBoxesFile(in, out, sel, pb, nil)
+		return api.RemoveBoxesFile(in, out, sel, pb, cf.conf())
 	case "crop":
 		b, err := api.Box(s.Txt, types.POINTS)
 		if err != nil {
 			h.Die("box %q rejected: %v", s.Txt, err)
 		}
-		return api.CropFile(in, out, sel, b, nil)
+		return api.CropFile(in, out, sel, b, cf.conf())
 	}
 	h.Die("unknown op %q", s.Op)
 	return nil
 }
 
-func safeApplyOp(s step32, in, out string) (err error, pan string) {
+func safeApplyOp(s step32, in, out string, cf *ConfIn) (err error, pan string) {
 	defer func() {
 		if x := recover(); x != nil {
 			pan = fmt.Sprint(x)
 		}
 	}()
-	return applyOp(s, in, out), ""
+	return applyOp(s, in, out, cf), ""
 }
 
 func (r *runner32) report(c case32, upto int, op, detail, msg string, got []apage) {
@@ -303,7 +304,8 @@ func (r *runner32) report(c case32, upto int, op, detail, msg string, got []apag
 
 func (r *runner32) run(c case32) {
 	r.stats["cases"]++
-	tk := string(c.Tree)
+	cj, _ := json.Marshal(c.Conf)
+	tk := string(c.Tree) + string(cj)
 	root, ok := r.cache[tk]
 	if !ok {
 		var in DocIn
@@ -343,7 +345,7 @@ func (r *runner32) run(c case32) {
 		if !ok {
 			r.seq++
 			out := filepath.Join(r.dir, fmt.Sprintf("s%d.pdf", r.seq))
-			err, pan := safeApplyOp(s, cur.path, out)
+			err, pan := safeApplyOp(s, cur.path, out, c.Conf)
 			r.stats["api_calls"]++
 			if pan != "" {
 				e = &entry32{path: cur.path, pages: cur.pages, bases: cur.bases, bad: true, checked: true, err: true}
@@ -439,6 +441,9 @@ func writeKeys(path string, keys map[string]bool) {
 func shardOf(c case32, of int) int {
 	hh := fnv.New32a()
 	hh.Write(c.Tree)
+	if cj, err := json.Marshal(c.Conf); err == nil {
+		hh.Write(cj)
+	}
 	if len(c.Steps) > 0 {
 		hh.Write([]byte(c.Steps[0].key()))
 	}
